@@ -644,12 +644,20 @@ func execAPI(c apiCase, x *verifkit.Ctx) (fail *verifkit.Failure) {
 		vals := map[int]int{}
 		for j := 0; j < c.Churn; j++ {
 			k := base + j
+			admitted := false
 			for try := 0; try < 3; try++ {
 				v := newVal(k, false)
 				if cl.set(k, v, 1, 0) {
 					vals[k] = v
+					admitted = true
 					break
 				}
+			}
+			if !admitted {
+				// the doorkeeper refuses a key it sees for the first time; the second Set in a row can be a
+				// first sighting again only if the filter was emptied in between (it is emptied at the start
+				// of an insert once enough first sightings were refused), the third cannot
+				return verifkit.Failf("api/set/false-without-reason/doorkeeper-never-admits", "chain %s, doorkeeper on: three Sets of key %d (cost 1, MaxSize %d) in a row all returned false", c.Chain, k, c.MaxSize)
 			}
 		}
 		keys := make([]int, 0, len(vals))
